@@ -10,15 +10,34 @@ specification enumerates.
 from . import sx, cfg as cfgm
 
 
-def ev3(e, val):
+def ev3(e, val, res=None):
     """three-valued evaluation of a side-effect-free expression under
-    val: {sx.key(var): int}.  Returns int / bool-as-int, or None if unknown."""
+    val: {sx.key(var): int}.  Returns int / bool-as-int, or None if unknown.
+    res: optional resolver  node -> value or None, consulted first."""
+    if res is not None:
+        return _ev3r(e, val, res)
+    return _ev3(e, val)
+
+
+def _ev3r(e, val, res):
+    """ev3 with a resolver: implemented by substituting resolved nodes"""
+    def sub(x):
+        if not isinstance(x, list) or not x:
+            return x
+        v = res(x)
+        if v is not None:
+            return ['int', v]
+        return [sub(y) if isinstance(y, list) else y for y in x]
+    return _ev3(sub(e), val)
+
+
+def _ev3(e, val):
     e = sx.strip_paren(e)
     k = sx.kind(e)
     if k is None:
         return None
     if k == 'cast':
-        return ev3(e[4], val)
+        return _ev3(e[4], val)
     if k == 'int':
         return e[1]
     if k == 'flt':
@@ -30,15 +49,15 @@ def ev3(e, val):
     if kk in val:
         return val[kk]
     if k == 'assign':
-        return ev3(e[2], val)
+        return _ev3(e[2], val)
     if k == 'un':
-        v = ev3(e[2], val)
+        v = _ev3(e[2], val)
         if v is None:
             return None
         return {'!': int(not v), '-': -v, '~': ~v, '+': v}.get(e[1])
     if k == 'bin':
         op = e[1]
-        a, b = ev3(e[2], val), ev3(e[3], val)
+        a, b = _ev3(e[2], val), _ev3(e[3], val)
         if op == '&&':
             if a == 0 or b == 0:
                 return 0
@@ -61,13 +80,13 @@ def ev3(e, val):
         except (KeyError, ValueError, OverflowError, TypeError, ZeroDivisionError):
             return None
     if k == 'cond':
-        c = ev3(e[1], val)
+        c = _ev3(e[1], val)
         if c is None:
-            a, b = ev3(e[2], val), ev3(e[3], val)
+            a, b = _ev3(e[2], val), _ev3(e[3], val)
             return a if a == b else None
-        return ev3(e[2] if c else e[3], val)
+        return _ev3(e[2] if c else e[3], val)
     if k == 'call' and sx.callee_name(e) == '__builtin_expect':
-        return ev3(e[2][0], val)
+        return _ev3(e[2][0], val)
     return None
 
 
